@@ -23,7 +23,7 @@ BUDGET = {
 }
 RULE = (
     "cases: topology (1-2 popen workers | master + via sub | master + socket member) x worker program (idle, receive-"
-    "blocked, busy, sleeping, KeyboardInterrupt-swallowing, extra threads, callback left on a dropped channel, further remote_execs refused on a busy main_thread_only worker; optionally after one or two bodies that ran to completion) x backend x death of the initiator (SIGKILL at "
+    "blocked, busy, sleeping, KeyboardInterrupt-swallowing, extra threads, callback left on a dropped channel (also one that raises when given the endmarker), further remote_execs refused on a busy main_thread_only worker; optionally after one or two bodies that ran to completion) x backend x death of the initiator (SIGKILL at "
     "a generated sync point, byte-exact cut of the initiator->worker stream, normal exit of the main thread, close of "
     "the write side only) or of the via master, optionally while an initiator task streams data.  Oracle: every worker "
     "(and sub) has exited within 16 simulated seconds per hop after the fault.  Non-trivial = the fault fired with at "
@@ -85,7 +85,8 @@ def gen(rng, tier):
             # the other end, so nothing unregisters it before the connection goes away
             sub = f"s{gi}"
             actors[aid]["ops"] = [["send", label, f"{label}:w2i:x:started", ["none"]], ["newchan", sub],
-                                  ["setcb", sub, rng.random() < 0.5, None],
+                                  (["setcb", sub, True, 0] if rng.random() < 0.3 else  # ... whose endmarker call raises
+                                   ["setcb", sub, rng.random() < 0.5, None]),
                                   ["sendchan", label, sub, f"{label}:w2i:x:chan", "bare"], ["drop", sub], ["gc"]]
             actors[aid]["ops"] += rng.choice([[], [["recv", label]], [["sleep", 1000.0]]])
         else:
